@@ -265,8 +265,8 @@ class MetadataGenerator:
                 while Null in types:
                     types.remove(Null)
 
-            meta_type = DUnion(*types)
-            if len(meta_type.types) == 1:
+            meta_type = DUnion(*types) if types else Unknown
+            if meta_type is not Unknown and len(meta_type.types) == 1:
                 meta_type = meta_type.types[0]
 
             if optional:
